@@ -1,0 +1,163 @@
+//! The list machinery of `lists.rs` with plain data: `write_list`, `definitive_tactic`,
+//! `needs_trailing_separator` and the comment rewriter `write_list` calls.
+//!
+//! Enumerations are small integers:
+//! comment style 0 `SameLine`, 1 `DifferentLine`, 2 `None`;
+//! `ListTactic` 0 `Vertical`, 1 `Horizontal`, 2 `HorizontalVertical`,
+//! 3 `LimitedHorizontalVertical(n)`, 4 `Mixed`;
+//! `DefinitiveListTactic` 0 `Vertical`, 1 `Horizontal`, 2 `Mixed`, 3 `SpecialMacro(n)`;
+//! `SeparatorTactic` 0 `Always`, 1 `Never`, 2 `Vertical`; `SeparatorPlace` 0 `Front`, 1 `Back`;
+//! `Separator` 0 `Comma`, 1 `VerticalBar`.
+//! A `Shape` is `(width, block_indent, alignment, offset)`.
+
+use crate::config::Config;
+use crate::config::lists::{DefinitiveListTactic, ListTactic, SeparatorPlace, SeparatorTactic};
+use crate::lists::{ListFormatting, ListItem, ListItemCommentStyle, Separator};
+use crate::rewrite::RewriteError;
+use crate::shape::{Indent, Shape};
+
+/// A `ListItem`; `item: None` is a failed rewrite (`Err(RewriteError::Unknown)`).
+#[derive(Clone, Debug)]
+pub struct Item {
+    pub pre_comment: Option<String>,
+    pub pre_comment_style: u8,
+    pub item: Option<String>,
+    pub post_comment: Option<String>,
+    pub new_lines: bool,
+}
+
+/// The fields of a `ListFormatting` apart from the configuration.
+#[derive(Clone, Debug)]
+pub struct Formatting {
+    pub tactic: (u8, usize),
+    pub separator: String,
+    pub trailing_separator: u8,
+    pub separator_place: u8,
+    pub shape: (usize, usize, usize, usize),
+    pub ends_with_newline: bool,
+    pub preserve_newline: bool,
+    pub nested: bool,
+    pub align_comments: bool,
+}
+
+fn list_item(x: &Item) -> ListItem {
+    ListItem {
+        pre_comment: x.pre_comment.clone(),
+        pre_comment_style: match x.pre_comment_style {
+            0 => ListItemCommentStyle::SameLine,
+            1 => ListItemCommentStyle::DifferentLine,
+            _ => ListItemCommentStyle::None,
+        },
+        item: match x.item {
+            Some(ref s) => Ok(s.clone()),
+            None => Err(RewriteError::Unknown),
+        },
+        post_comment: x.post_comment.clone(),
+        new_lines: x.new_lines,
+    }
+}
+
+fn shape(x: (usize, usize, usize, usize)) -> Shape {
+    Shape {
+        width: x.0,
+        indent: Indent {
+            block_indent: x.1,
+            alignment: x.2,
+        },
+        offset: x.3,
+    }
+}
+
+fn definitive(x: (u8, usize)) -> DefinitiveListTactic {
+    match x.0 {
+        0 => DefinitiveListTactic::Vertical,
+        1 => DefinitiveListTactic::Horizontal,
+        2 => DefinitiveListTactic::Mixed,
+        _ => DefinitiveListTactic::SpecialMacro(x.1),
+    }
+}
+
+fn separator_tactic(x: u8) -> SeparatorTactic {
+    match x {
+        0 => SeparatorTactic::Always,
+        1 => SeparatorTactic::Never,
+        _ => SeparatorTactic::Vertical,
+    }
+}
+
+fn separator_place(x: u8) -> SeparatorPlace {
+    match x {
+        0 => SeparatorPlace::Front,
+        _ => SeparatorPlace::Back,
+    }
+}
+
+fn formatting<'a>(f: &'a Formatting, config: &'a Config) -> ListFormatting<'a> {
+    ListFormatting::new(shape(f.shape), config)
+        .tactic(definitive(f.tactic))
+        .separator(&f.separator)
+        .trailing_separator(separator_tactic(f.trailing_separator))
+        .separator_place(separator_place(f.separator_place))
+        .ends_with_newline(f.ends_with_newline)
+        .preserve_newline(f.preserve_newline)
+        .nested(f.nested)
+        .align_comments(f.align_comments)
+}
+
+/// `write_list(items, &formatting)`; `None` is `Err(_)`.
+pub fn write_list(items: &[Item], f: &Formatting, config: &Config) -> Option<String> {
+    let items: Vec<ListItem> = items.iter().map(list_item).collect();
+    crate::lists::write_list(&items, &formatting(f, config)).ok()
+}
+
+/// `definitive_tactic(items, tactic, sep, width)`.
+pub fn definitive_tactic(
+    items: &[Item],
+    tactic: (u8, usize),
+    sep: u8,
+    width: usize,
+) -> (u8, usize) {
+    let items: Vec<ListItem> = items.iter().map(list_item).collect();
+    let tactic = match tactic.0 {
+        0 => ListTactic::Vertical,
+        1 => ListTactic::Horizontal,
+        2 => ListTactic::HorizontalVertical,
+        3 => ListTactic::LimitedHorizontalVertical(tactic.1),
+        _ => ListTactic::Mixed,
+    };
+    let sep = match sep {
+        0 => Separator::Comma,
+        _ => Separator::VerticalBar,
+    };
+    match crate::lists::definitive_tactic(&items, tactic, sep, width) {
+        DefinitiveListTactic::Vertical => (0, 0),
+        DefinitiveListTactic::Horizontal => (1, 0),
+        DefinitiveListTactic::Mixed => (2, 0),
+        DefinitiveListTactic::SpecialMacro(n) => (3, n),
+    }
+}
+
+/// `ListFormatting::needs_trailing_separator`.
+pub fn needs_trailing_separator(f: &Formatting, config: &Config) -> bool {
+    formatting(f, config).needs_trailing_separator()
+}
+
+/// Number of items and the sum of `total_item_width` (what `calculate_width` folds).
+pub fn total_width(items: &[Item]) -> (usize, usize) {
+    items.iter().fold((0, 0), |acc, x| {
+        (
+            acc.0 + 1,
+            acc.1 + crate::lists::total_item_width(&list_item(x)),
+        )
+    })
+}
+
+/// `rewrite_comment(orig, block_style, shape, config)`; `None` is `Err(_)`.
+pub fn rewrite_comment(
+    orig: &str,
+    block_style: bool,
+    s: (usize, usize, usize, usize),
+    config: &Config,
+) -> Option<String> {
+    crate::comment::rewrite_comment(orig, block_style, shape(s), config).ok()
+}
